@@ -16,6 +16,7 @@ type op struct {
 	Node    nodeID
 	Updates []pb.Update
 	Index   uint64
+	Lower   uint64 // compact: a second CompactEntriesTo for this lower index follows at once (0: none)
 	Boot    pb.Bootstrap
 	Snap    pb.Snapshot
 	// bookkeeping for evidence
@@ -52,6 +53,9 @@ func (o op) String() string {
 	case "removeto":
 		return fmt.Sprintf("RemoveEntriesTo(%s,%d)", o.Node, o.Index)
 	case "compact":
+		if o.Lower > 0 {
+			return fmt.Sprintf("CompactEntriesTo(%s,%d);CompactEntriesTo(%s,%d)", o.Node, o.Index, o.Node, o.Lower)
+		}
 		return fmt.Sprintf("CompactEntriesTo(%s,%d)", o.Node, o.Index)
 	case "removenode":
 		return fmt.Sprintf("RemoveNodeData%s", o.Node)
@@ -110,10 +114,23 @@ func applyToStore(db raftio.ILogDB, o op) error {
 		if err != nil {
 			return err
 		}
-		select {
-		case <-ch:
-		case <-time.After(300 * time.Second):
-			return errCompactionTimeout
+		chans := []<-chan struct{}{ch}
+		if o.Lower > 0 {
+			// (not generated: compaction indexes that move back are excluded by the log store's own
+			// contract - logdb TestMovingCompactionIndexBackWillCausePanic; it is the node that must
+			// not ask for them, see DESIGN.md defect 20)
+			ch2, err := db.CompactEntriesTo(o.Node.Shard, o.Node.Replica, o.Lower)
+			if err != nil {
+				return err
+			}
+			chans = append(chans, ch2)
+		}
+		for _, c := range chans {
+			select {
+			case <-c:
+			case <-time.After(300 * time.Second):
+				return errCompactionTimeout
+			}
 		}
 		return nil
 	case "removenode":
